@@ -308,6 +308,11 @@ fn rewrite_fn(name: &str, sig: &mut Signature, block: &mut Block, unit: &Unit, l
         }
     }
     let mut rw = Body::new(unit, log, name.to_string(), lifted);
+    if rw.opt_list("pipeline").iter().any(|f| *f == name || *f == short) {
+        if !rw.rule_pipeline(block, &sig.output) {
+            fail(&format!("lost anchor: the tail of {name} is not a linear adapter chain of the shape rule R30 covers"));
+        }
+    }
     rw.visit_block_mut(block);
     rw.finish_fn(sig, block);
 }
@@ -362,6 +367,114 @@ impl<'a> Body<'a> {
         let k = self.counter;
         self.counter += 1;
         k
+    }
+
+    /// R30: the tail expression `SRC.iter().map(A)…filter(C)…limit_sort_unstable(L, CMP).map(D)….collect()` of a listed
+    /// function becomes staged loops: (1) per source element, in order: the map / filter stages before the selection;
+    /// (2) one call of the outlined selection `limit_sort_all(items, L, CMP)` (contract LS, lane K); (3) per selected item the
+    /// remaining map stages.  Side conditions checked here: a linear chain of these adapters only, one-parameter closures.
+    /// What is dropped: laziness (the closures are called stage by stage instead of interleaved) — equivalent when the
+    /// closures do not share mutable state, which rustc's borrow checker re-checks on the rewritten body.
+    fn rule_pipeline(&mut self, block: &mut Block, ret: &ReturnType) -> bool {
+        let Some(Stmt::Expr(tail, None)) = block.stmts.last() else { return false };
+        // unroll the chain
+        let mut stages: Vec<(String, Vec<Expr>)> = vec![];
+        let mut cur: &Expr = tail;
+        let src: Expr;
+        loop {
+            match cur {
+                Expr::MethodCall(m) => {
+                    let name = m.method.to_string();
+                    if name == "iter" && m.args.is_empty() {
+                        src = (*m.receiver).clone();
+                        break;
+                    }
+                    if !["map", "filter", "limit_sort_unstable", "collect"].contains(&name.as_str()) {
+                        return false;
+                    }
+                    stages.push((name, m.args.iter().cloned().collect()));
+                    cur = &m.receiver;
+                }
+                _ => return false,
+            }
+        }
+        stages.reverse();
+        if stages.last().map(|s| s.0.as_str()) != Some("collect") {
+            return false;
+        }
+        let k = self.fresh();
+        let (buf, sel, out, i, j, cur_v) = (ident(&format!("__items{k}")), ident(&format!("__sel{k}")), ident(&format!("__out{k}")), ident(&format!("__i{k}")), ident(&format!("__j{k}")), ident("__cur"));
+        let mut pre: Vec<TokenStream> = vec![];
+        let mut post: Vec<TokenStream> = vec![];
+        let mut seen_sel: Option<(Expr, Expr)> = None;
+        let mut first = true;
+        let mut cur_is_ref = false;
+        for (name, args) in stages.iter() {
+            match name.as_str() {
+                "collect" => {}
+                "limit_sort_unstable" => {
+                    if args.len() != 2 || seen_sel.is_some() {
+                        return false;
+                    }
+                    seen_sel = Some((args[0].clone(), args[1].clone()));
+                }
+                "map" | "filter" => {
+                    let Some(Expr::Closure(c)) = args.first() else { return false };
+                    if c.inputs.len() != 1 {
+                        return false;
+                    }
+                    let p = &c.inputs[0];
+                    let body = &c.body;
+                    let post_empty = post.is_empty();
+                    let target = if seen_sel.is_none() { &mut pre } else { &mut post };
+                    if name == "map" {
+                        if first {
+                            // first stage sees `&element` of the source slice
+                            if let Pat::Reference(pr) = p {
+                                let inner = &pr.pat;
+                                target.push(quote!(let #inner = #src[__ix]; let #cur_v = #body;));
+                            } else {
+                                target.push(quote!(let #p = &#src[__ix]; let #cur_v = #body;));
+                            }
+                        } else if seen_sel.is_some() && post_empty {
+                            target.push(quote!(let #p = &#sel[__jx]; let #cur_v = #body;));
+                        } else {
+                            target.push(quote!(let #p = #cur_v; let #cur_v = #body;));
+                        }
+                        cur_is_ref = false;
+                    } else if seen_sel.is_some() && post_empty {
+                        // a filter directly after the selection sees `&element` of the selected items
+                        target.push(quote!(let #cur_v = &#sel[__jx]; let __keep = { let #p = #cur_v; #body }; if !__keep { continue; }));
+                        cur_is_ref = true;
+                    } else if cur_is_ref {
+                        target.push(quote!(let __keep = { let #p = #cur_v; #body }; if !__keep { continue; }));
+                    } else {
+                        target.push(quote!(let __keep = { let #p = &#cur_v; #body }; if !__keep { continue; }));
+                    }
+                    first = false;
+                }
+                _ => return false,
+            }
+        }
+        let Some((limit, cmp)) = seen_sel else { return false };
+        self.note("R30", format!("tail iterator pipeline over `{}` -> staged loops around limit_sort_all (LS contract)", src.to_token_stream()));
+        // element type of the intermediate buffer from the unit file (validated by rustc); the result type is the function's
+        let item_ty: Type = self.unit.opts.get("pipeline_item").and_then(|v| v.as_table()).and_then(|t| t.get(&self.func)).and_then(|v| v.as_str())
+            .map(|t| syn::parse_str(&format!("Vec<{t}>")).unwrap_or_else(|e| fail(&format!("bad pipeline_item: {e}")))).unwrap_or(parse_quote!(Vec<_>));
+        let out_ty: Type = match ret { ReturnType::Type(_, t) => (**t).clone(), _ => parse_quote!(Vec<_>) };
+        let stmts = parse_stmts(quote!(
+            let mut #buf: #item_ty = Vec::new();
+            let mut #i = 0;
+            while #i < #src.len() { let __ix = #i; #i += 1; #(#pre)* #buf.push(#cur_v); }
+            let #sel = limit_sort_all(#buf, #limit, #cmp);
+            let mut #out: #out_ty = Vec::new();
+            let mut #j = 0;
+            while #j < #sel.len() { let __jx = #j; #j += 1; #(#post)* #out.push(#cur_v); }
+            #out
+        ));
+        block.stmts.pop();
+        block.stmts.extend(stmts);
+        true
     }
 
     fn finish_fn(&mut self, sig: &mut Signature, block: &mut Block) {
@@ -628,6 +741,15 @@ impl<'a> Body<'a> {
                     *e = parse_expr(quote!(HashMap::with_capacity(#a)));
                     return;
                 }
+                if f == "Default::default" && c.args.is_empty() {
+                    // R14: `Default::default()` at a field whose type the unit file names -> `<Ty>::default()`
+                    if let Some(ty) = self.unit.opts.get("default_of").and_then(|v| v.as_table()).and_then(|t| t.get(&self.func)).and_then(|v| v.as_str()) {
+                        let t = ident(ty);
+                        self.note("R14", format!("`Default::default()` -> `{ty}::default()`"));
+                        *e = parse_expr(quote!(#t::default()));
+                        return;
+                    }
+                }
                 if f == "HashMap::default" && c.args.is_empty() {
                     self.note("R14", "`HashMap::default()` -> `HashMap::new()` (hasher dropped)".into());
                     *e = parse_expr(quote!(HashMap::new()));
@@ -659,6 +781,13 @@ impl<'a> Body<'a> {
                         }
                     }
                 }
+            }
+            Expr::Path(p) if p.qself.is_none() && p.path.segments.len() == 2 && self.opt_list("strip_modules").iter().any(|m| p.path.segments[0].ident == m) => {
+                // R24: the unit is flat; `module::item` of a repository module becomes `item`
+                let last = p.path.segments[1].clone();
+                let mut np = p.clone();
+                np.path.segments = std::iter::once(last).collect();
+                *e = Expr::Path(np);
             }
             Expr::Path(p) => {
                 let s = p.to_token_stream().to_string().replace(' ', "");
